@@ -38,8 +38,9 @@ WOf(env) == IF "W" \in DOMAIN env /\ env["W"] # "" THEN env["W"] ELSE "none"
 Loaded(d, env, anchor) ==
   [kind |-> d.kind, name |-> d.name, variant |-> d.variant,
    v |-> (IF d.kind \in {"services", "volumes"} THEN VOf(env) ELSE "-"),
-   w |-> (IF d.kind = "services" THEN WOf(env) ELSE "-"),
-   anchor |-> (IF d.kind = "services" \/ (d.kind \in {"secrets", "configs"} /\ d.variant # 3) THEN anchor ELSE <<"-">>)]
+   \* variant 5 of a secret / config: its content is the value of W in the environment of the file that declares it
+   w |-> (IF d.kind = "services" \/ (d.kind \in {"secrets", "configs"} /\ d.variant = 5) THEN WOf(env) ELSE "-"),
+   anchor |-> (IF d.kind = "services" \/ (d.kind \in {"secrets", "configs"} /\ d.variant \notin {3, 5}) THEN anchor ELSE <<"-">>)]
 SameKey(a, b) == a.kind = b.kind /\ a.name = b.name
 
 \* import rs into acc: absent -> add, equal -> accept, different -> conflict
